@@ -79,7 +79,7 @@ func AccessOf(f modbus.Field) spec.Access {
 }
 
 // Orders are the documented byte orders as the library's type.
-var Orders = []packet.ByteOrder{0, packet.BigEndian, packet.LittleEndian, packet.BigEndianLowWordFirst, packet.BigEndianHighWordFirst, packet.LittleEndianLowWordFirst, packet.LittleEndianHighWordFirst}
+var Orders = []packet.ByteOrder{0, packet.BigEndian, packet.LittleEndian, packet.BigEndianLowWordFirst, packet.BigEndianHighWordFirst, packet.LittleEndianLowWordFirst, packet.LittleEndianHighWordFirst, packet.LowWordFirst, packet.HighWordFirst}
 
 // RegisterField draws a valid register field with its address in [lo,hi] (span may exceed hi).
 func RegisterField(t *rapid.T, name string, lo, hi int) modbus.Field {
